@@ -138,6 +138,7 @@ type Gen struct {
 	loopHeadState map[*ssa.BasicBlock]*State
 	rangeVisited map[*ssa.Range]string
 	frameElems bool
+	globalAddr map[*ssa.Global]int
 	frameDone bool
 	abstractMod bool
 	frameNothing bool
@@ -789,9 +790,22 @@ func (g *Gen) val(v ssa.Value, st *State) Val {
 	case *ssa.FreeVar:
 		return g.vals[v]
 	case *ssa.Global:
-		// address of a global: only used through loads/stores
-		g.errorf("global %s used as a value", c.Name())
-		return g.freshVal("g", v.Type(), nil, "true")
+		// address of a global used as a value (e.g. method call on a package-level struct): an opaque,
+		// non-nil pointer that is distinct from every allocated object and from other globals' addresses.
+		// Direct loads/stores of the global use its own cell; memory reached through this pointer is a
+		// separate view (noted as an assumption).
+		if g.globalAddr == nil {
+			g.globalAddr = map[*ssa.Global]int{}
+		}
+		id, ok := g.globalAddr[c]
+		if !ok {
+			id = len(g.globalAddr) + 1
+			g.globalAddr[c] = id
+			g.note(fmt.Sprintf("address of global %s used as a value: modelled as an opaque non-nil pointer", c.Name()))
+		}
+		r := Val{T: fmt.Sprintf("(pobj (- %d))", id), S: sPtr, G: v.Type()}
+		g.vals[v] = r
+		return r
 	case *ssa.Function:
 		n := "fn_" + mangle(c.String())
 		g.declare(n, "Int")
